@@ -145,9 +145,11 @@ def run(tier, seed, scratch, t0):
     c = res.counters
     table = _schedule_table(c)
     per_api = {k.split("|", 1)[1]: c.pop(k) for k in list(c.keys()) if k.startswith("calls|")}
+    wall_ms = {k.split("|", 1)[1]: c.pop(k) for k in list(c.keys()) if k.startswith("wall_ms|")}
     extra = {
         "layers": layers,
         "calls_by_interface_and_path": dict(sorted(per_api.items())),
+        "worker_wall_ms_by_interface_and_path": dict(sorted(wall_ms.items())),
         "schedule_diversity_by_configuration_class": table,
         "schedule_summary": {
             "multi_thread_multi_task_configs": c.get("multi_thread_multi_task_configs", 0),
